@@ -129,9 +129,19 @@ def build_manager(cfg):
     max_boreholes, cont, geom (tuple), flow_type.  Returns a GHEManager ready for find_design."""
     from ghedesigner.manager import GHEManager
 
-    phys = cfg["phys"]
     m = GHEManager()
-    m.set_fluid(phys["fluid"][0], phys["fluid"][1])
+    configure(m, cfg)
+    return m
+
+
+def configure(m, cfg):
+    """Every setter of the manager, in the order a user script calls them (also used to RE-configure
+    a manager that has already produced a design)."""
+    phys = cfg["phys"]
+    if "fluid_temp" in phys:
+        m.set_fluid(phys["fluid"][0], phys["fluid"][1], phys["fluid_temp"])
+    else:
+        m.set_fluid(phys["fluid"][0], phys["fluid"][1])
     m.set_grout(*phys["grout"])
     m.set_soil(*phys["soil"])
     h, d, dia = phys["borehole"]
@@ -142,7 +152,6 @@ def build_manager(cfg):
     m.set_ground_loads_from_hourly_list(cfg["loads"])
     set_geometry(m, cfg["geom"])
     m.set_design(cfg["flow"], cfg.get("flow_type", "BOREHOLE"))
-    return m
 
 
 def set_geometry(m, geom):
@@ -170,7 +179,7 @@ def media(phys, pipe_kind="SINGLEUTUBE"):
     from ghedesigner.enums import BHPipeType
     from ghedesigner.media import GHEFluid, Grout, Pipe, Soil
 
-    fluid = GHEFluid(fluid_str=phys["fluid"][0], percent=phys["fluid"][1])
+    fluid = GHEFluid(fluid_str=phys["fluid"][0], percent=phys["fluid"][1], temperature=phys.get("fluid_temp", 20.0))
     grout = Grout(*phys["grout"])
     soil = Soil(*phys["soil"])
     h, d, dia = phys["borehole"]
